@@ -50,6 +50,8 @@ def scenarios(r, p):
                 cur["metadata"]["ownerReferences"] = refs
         return cur
 
+    if not p.get("createEnabled", True):      # may not create: the object is provisioned elsewhere
+        return rf45.synth_stored(p), [deco, deco_co_owned if r.random() < 0.3 else deco, None]
     c = r.random()
     if c < 0.5:
         return None, [None, deco, deco]
